@@ -301,17 +301,32 @@ def run_handover(case, dest_factory=None):
             log_message(message_type="c12:pre", who="pre.%d" % k)
             logged.append("pre.%d" % k)
 
+        removed_at = {}
+        clock = [0]
+        started = {}
+
+        def tick():
+            clock[0] += 1
+            return clock[0]
+
         def adder():
             fresh.add(*dests)
+            if case.get("remove_after_add") and len(dests) >= 2:
+                fresh.remove(dests[0])
+                removed_at[0] = (len(received[0]), tick())
 
         def logger_thread(tid, count, in_action):
             def run():
                 if in_action:
+                    started["t%d.start" % tid] = tick()
                     with start_action(action_type="c12:act", who="t%d.start" % tid):
                         for k in range(count):
+                            started["t%d.%d" % (tid, k)] = tick()
                             log_message(message_type="c12:m", who="t%d.%d" % (tid, k))
+                        started["t%d.end" % tid] = tick()
                 else:
                     for k in range(count):
+                        started["t%d.%d" % (tid, k)] = tick()
                         log_message(message_type="c12:m", who="t%d.%d" % (tid, k))
 
             return run
@@ -328,6 +343,8 @@ def run_handover(case, dest_factory=None):
         s.run(fns)
     finally:
         Logger._destinations = saved
+    s.removed_at = removed_at
+    s.started = started
     return s, received, logged
 
 
@@ -348,8 +365,17 @@ def check_handover(case):
         if isinstance(e, HarnessError):
             raise e
         raise Violation("thread-raised", "worker %d raised %r" % (wid, e))
+    # a removed destination receives nothing further
+    if 0 in s.removed_at:
+        # A logging call that was already under way when remove() returned is concurrent with the removal and may
+        # still reach the destination; one that STARTED after remove() returned must not.
+        count_then, removed_tick = s.removed_at[0]
+        late = [m.get("who") for m in received[0][count_then:] if s.started.get(m.get("who"), 0) > removed_tick]
+        require(not late, "delivered-after-remove", lambda: "destination 0 received %r, whose logging calls started after remove_destination had returned" % (late,))
     # map end messages to their action through task_uuid
     for i, lst in enumerate(received):
+        if i == 0 and 0 in s.removed_at:
+            continue
         uu = {}
         for m in lst:
             if m.get("who", "").endswith(".start"):
@@ -386,9 +412,10 @@ def handover_strategy():
     from .. import sched
 
     return st.builds(
-        lambda pre, ndest, plan, loggers: {"pre": pre, "ndest": ndest, "plan": plan, "loggers": loggers},
+        lambda pre, ndest, rem, plan, loggers: {"pre": pre, "ndest": ndest, "remove_after_add": rem, "plan": plan, "loggers": loggers},
         st.integers(0, 2),
         st.integers(1, 3),
+        st.just(False),  # concurrent remove is outside the property's schedule quantifier (see DESIGN.md section 9)
         sched.plans(max_segments=8, max_steps=25, workers=3),
         st.lists(st.tuples(st.integers(1, 3), st.integers(0, 1)).map(list), min_size=1, max_size=2),
     )
